@@ -367,6 +367,116 @@ fn check_readable(ctx: &mut Ctx, seed: u64) {
     ctx.class("typed:human-readable-probe");
 }
 
+// ---- (2c) recursive types: what counts as a nesting level is the same on both routes
+
+#[derive(Debug, PartialEq, Serialize, Deserialize)]
+struct ListNode {
+    id: u32,
+    next: Option<Box<ListNode>>,
+}
+#[derive(Debug, PartialEq, Serialize, Deserialize)]
+struct NewTree(Vec<NewTree>);
+#[derive(Debug, PartialEq, Serialize, Deserialize)]
+struct PlainTree {
+    kids: Vec<PlainTree>,
+}
+#[derive(Debug, PartialEq, Serialize, Deserialize)]
+enum EnumTree {
+    Leaf,
+    Node(Vec<EnumTree>),
+    Wrap(Box<EnumTree>),
+}
+#[derive(Debug, PartialEq, Serialize, Deserialize)]
+struct Wrapped(Option<Box<Wrapped>>);
+
+fn check_recursive(ctx: &mut Ctx, kind: u64, depth: usize) {
+    fn routes<T: Serialize + for<'a> Deserialize<'a> + PartialEq + std::fmt::Debug>(ctx: &mut Ctx, name: &str, depth: usize, text: &str) {
+        ctx.ops(3);
+        let a = sonic_rs::from_str::<T>(text).map_err(|e| e.to_string());
+        let parsed = sonic_rs::from_str::<Value>(text).map_err(|e| e.to_string());
+        let b = match &parsed {
+            Ok(v) => sonic_rs::from_value::<T>(v).map_err(|e| e.to_string()),
+            Err(e) => Err(format!("text does not parse: {}", e)),
+        };
+        match (&a, &b) {
+            (Ok(x), Ok(y)) if x == y => {
+                // and back: to_value(x) is the DOM of the text, and reads back
+                match sonic_rs::to_value(x) {
+                    Ok(d) => {
+                        if Some(&d) != parsed.as_ref().ok() {
+                            ctx.fail(&format!("recursive-routes-differ:{}", name), format!("depth {}: to_value(x) is not the DOM of to_string(x)", depth));
+                        }
+                        if sonic_rs::from_value::<T>(&d).ok().as_ref() != Some(x) {
+                            ctx.fail(&format!("recursive-dom-roundtrip:{}", name), format!("depth {}: from_value(to_value(x)) is not x", depth));
+                        }
+                    }
+                    Err(e) => ctx.fail(&format!("recursive-to_value-failed:{}", name), format!("depth {}: {}", depth, e)),
+                }
+                ctx.class("typed:recursive-both-ok");
+            }
+            (Ok(_), Ok(_)) => ctx.fail(&format!("recursive-values-differ:{}", name), format!("depth {}: from_str and from_value read different values", depth)),
+            (Ok(_), Err(e)) => ctx.fail(&format!("recursive-from_value-fails:{}", name), format!("depth {}: from_str reads the text, from_value of its DOM fails: {}", depth, crate::core::truncate(e, 160))),
+            // (the text route has a nesting limit of its own, one level below the DOM parser's, and
+            // the DOM route has none: only "the text route reads it => the DOM route reads the
+            // same" is claimed)
+            (Err(_), Ok(_)) if parsed.is_ok() => ctx.class("typed:recursive-text-route-refuses-depth"),
+            _ => ctx.class("typed:recursive-both-refuse"),
+        }
+    }
+    let n = depth;
+    let run = move |ctx: &mut Ctx| match kind % 5 {
+        0 => {
+            let mut t = String::new();
+            for i in 0..n {
+                t.push_str(&format!("{{\"id\":{},\"next\":", i));
+            }
+            t.push_str("null");
+            t.push_str(&"}".repeat(n));
+            routes::<ListNode>(ctx, "ListNode", n, &t);
+        }
+        1 => routes::<NewTree>(ctx, "NewTree", n, &format!("{}{}", "[".repeat(n), "]".repeat(n))),
+        2 => {
+            let mut t = String::new();
+            for _ in 0..n {
+                t.push_str("{\"kids\":[");
+            }
+            for _ in 0..n {
+                t.push_str("]}");
+            }
+            routes::<PlainTree>(ctx, "PlainTree", n, &t);
+        }
+        3 => {
+            let mut t = String::new();
+            for i in 0..n {
+                t.push_str(if i % 2 == 0 { "{\"Node\":[" } else { "{\"Wrap\":" });
+            }
+            t.push_str("\"Leaf\"");
+            for i in (0..n).rev() {
+                t.push_str(if i % 2 == 0 { "]}" } else { "}" });
+            }
+            routes::<EnumTree>(ctx, "EnumTree", n, &t);
+        }
+        _ => routes::<Wrapped>(ctx, "Wrapped", n, "null"),
+    };
+    // deep recursion of derived code: a roomy stack of its own
+    let mut sub = Ctx::new(&ctx.check, &ctx.build, ctx.tier);
+    let sub = std::thread::Builder::new().stack_size(256 << 20).spawn(move || {
+        run(&mut sub);
+        sub
+    });
+    match sub.map(|h| h.join()) {
+        Ok(Ok(sub)) => {
+            for v in sub.viols {
+                ctx.fail(&v.sig, v.msg);
+            }
+            for (k, n) in sub.classes {
+                ctx.class_n(&k, n);
+            }
+        }
+        _ => ctx.fail("recursive-thread-died", format!("kind {} depth {}: the worker thread panicked or overflowed", kind % 5, depth)),
+    }
+}
+
 // ---- (3) equality laws on DOM values
 
 /// reference equality: same tree, member order ignored (duplicate-free)
@@ -900,6 +1010,17 @@ impl Check for C19 {
         for _ in 0..g.count(160, 16_000) {
             emit(Case::with("readable", vec![], &[r.next() as i64]));
         }
+        {
+            let mut idx = 0u64;
+            for kind in 0..4i64 {
+                for depth in [1i64, 2, 30, 63, 64, 65, 100, 120, 126, 127, 128, 129, 130, 200, 253, 254, 255, 256, 300] {
+                    idx += 1;
+                    if g.mine(8000 + idx) {
+                        emit(Case::with("recursive", vec![], &[kind, depth]));
+                    }
+                }
+            }
+        }
         let n = g.count(4_000, 300_000);
         for _ in 0..n {
             emit(Case::with("laws-wide", vec![], &[r.next() as i64]));
@@ -1001,6 +1122,11 @@ impl Check for C19 {
                 }
                 ctx.sample("laws-wide");
             }
+            "recursive" => {
+                ctx.nontrivial();
+                check_recursive(ctx, c.p(0) as u64, c.p(1) as usize);
+                ctx.sample("recursive");
+            }
             "readable" => {
                 ctx.nontrivial();
                 check_readable(ctx, c.p(0) as u64);
@@ -1034,6 +1160,6 @@ impl Check for C19 {
         if b != "native-rel" {
             return vec!["dyn:both-routes-ok", "typed:instance", "typed:human-readable-probe", "laws:pair"];
         }
-        vec!["dyn:both-routes-ok", "table:non-finite", "table:wide-128", "table:non-string-key", "typed:instance", "typed:human-readable-probe", "laws:pair", "laws:equal-pair", "laws:duplicate-key-probe", "laws:reflexive-with-duplicates", "laws:wide-objects", "built:integer", "built:float", "built:string", "built:array", "built:object", "type:Payloads", "type:Wrappers", "type:Adjacent"]
+        vec!["dyn:both-routes-ok", "table:non-finite", "table:wide-128", "table:non-string-key", "typed:instance", "typed:human-readable-probe", "typed:recursive-both-ok", "laws:pair", "laws:equal-pair", "laws:duplicate-key-probe", "laws:reflexive-with-duplicates", "laws:wide-objects", "built:integer", "built:float", "built:string", "built:array", "built:object", "type:Payloads", "type:Wrappers", "type:Adjacent"]
     }
 }
